@@ -155,9 +155,15 @@ class ExtentAttribute:
 
       s = extent.split(" ")
 
-      (w, w_units) = utils.parse_length(s[0])
+      try:
 
-      (h, h_units) = utils.parse_length(s[1])
+        (w, w_units) = utils.parse_length(s[0])
+
+        (h, h_units) = utils.parse_length(s[1] if len(s) == 2 else "")
+
+      except ValueError:
+        LOGGER.error("ttp:extent on <tt> does not consist of two lengths")
+        return None
 
       if w_units != "px" or h_units != "px":
         LOGGER.error("ttp:extent on <tt> does not use px units")
@@ -165,6 +171,10 @@ class ExtentAttribute:
 
       if not w.is_integer() or not h.is_integer():
         LOGGER.error("Pixel resolution dimensions must be integer values")
+
+      if int(w) <= 0 or int(h) <= 0:
+        LOGGER.error("Pixel resolution dimensions must be larger than 0")
+        return None
 
       return model.PixelResolutionType(int(w), int(h))
 
